@@ -145,6 +145,38 @@ pub fn check_pair(sh: &mut Shard, r: &mut Rng, a: &IG, b: &IG, lat: &Lat, verbos
     sh.sample(|| json!({"a": format!("{:?}", ga), "b": format!("{:?}", gb), "exact_distance_squared_lattice": format!("{}/{}", d2.n, d2.d), "expected": exp}));
 }
 
+/// a geometry lying inside a hole of a polygon (distance > 0 although the envelopes are nested), or
+/// inside the shell next to the hole, or a polygon nested in a polygon: the containment branches
+fn gen_in_hole(r: &mut Rng) -> (IG, IG, Lat) {
+    let g = 12i64;
+    let (h0, h1) = (r.range(1, 3), r.range(9, 11));
+    let shell = IG::rect_ring((0, 0), (g, g));
+    let mut hole = IG::rect_ring((h0, h0), (h1, h1));
+    if r.chance(1, 2) {
+        hole.reverse();
+    }
+    let outer = if r.chance(1, 3) { IG::MultiPolygon(vec![vec![shell, hole]]) } else { IG::Polygon(vec![shell, hole]) };
+    let inner = loop {
+        let x = gen_any(r, 3);
+        if !x.is_empty() {
+            break x;
+        }
+    };
+    // inside the hole (h0+1 .. h1-1 has room for a 0..3 lattice), touching its edge, or straddling it
+    let off = match r.below(4) {
+        0 => h0,
+        1 => h0 - 2,
+        _ => r.range(h0 + 1, h1 - 4),
+    };
+    let inner = inner.translate(off, r.range(h0 + 1, h1 - 4));
+    let lat = Lat::random(r);
+    if r.chance(1, 2) {
+        (outer, inner, lat)
+    } else {
+        (inner, outer, lat)
+    }
+}
+
 pub fn run(ctx: &Ctx, sh: &mut Shard) {
     for k in ctx.case_indices() {
         if sh.cases >= ctx.budget {
@@ -152,7 +184,7 @@ pub fn run(ctx: &Ctx, sh: &mut Shard) {
         }
         ctx.mark_case(k);
         let mut r = Rng::derive(ctx.seed, ctx.shard, k);
-        let (a, b, lat) = super::c01::gen_case(&mut r);
+        let (a, b, lat) = if k % 6 == 5 { gen_in_hole(&mut r) } else { super::c01::gen_case(&mut r) };
         if a.n_segments() + b.n_segments() > 90 {
             continue;
         }
